@@ -103,6 +103,29 @@ func (c *ctl) faultReply(p *pend, k string) *simreg.Reply {
 	return &simreg.Reply{Status: 503, Body: errBody("UNAVAILABLE", "injected "+k)}
 }
 
+// override answers a request in the driver instead of simreg, for registry flavours simreg does not
+// have: the DELETE of an upload session answered 202 Accepted (simreg: 204), the status regclient's
+// blobUploadCancel takes for success.  The session is removed from the host state all the same.
+func (c *ctl) override(p *pend) *simreg.Reply {
+	if c.sc.Cancel202 == 0 || p.rq.Class != "upload_delete" {
+		return nil
+	}
+	h := c.w.net.Host(p.rq.Host)
+	if h == nil {
+		return nil
+	}
+	h.Lock()
+	u, ok := h.Uploads[p.rq.Ref]
+	if ok && u.Repo == p.rq.Repo {
+		delete(h.Uploads, p.rq.Ref)
+	}
+	h.Unlock()
+	if !ok {
+		return nil
+	}
+	return &simreg.Reply{Status: 202}
+}
+
 // decide is called (with c.mu held) when p is about to be served: positional faults, cancel and
 // death positions are keyed by the occurrence number of (side, class, name) in serving order.
 // It returns the reply to send (nil = serve) and whether the request must stay held (stall).
@@ -180,6 +203,9 @@ func (c *ctl) intercept(rq *simreg.Request) *simreg.Reply {
 			return nil
 		}
 		c.served++
+		if rp == nil {
+			rp = c.override(p)
+		}
 		c.mu.Unlock()
 		if c.w.tgtIsDir {
 			c.rec.dirSnap(vtrace.Event{"ev": "snap", "at": "req"})
@@ -273,6 +299,9 @@ func (c *ctl) releaseLocked(p *pend, scripted string) {
 		c.rec.dirSnap(vtrace.Event{"ev": "snap", "at": "gate"})
 	}
 	c.served++
+	if rp == nil {
+		rp = c.override(p)
+	}
 	p.ch <- rp
 }
 
@@ -301,6 +330,9 @@ func (c *ctl) settle(done <-chan struct{}) (finished bool) {
 	for {
 		win := settleWindow
 		c.mu.Lock()
+		if c.sc.Mode == "delay" {
+			win = 5 * time.Millisecond
+		}
 		if time.Now().Before(c.slowUntil) {
 			win = 12 * time.Millisecond
 		}
@@ -313,6 +345,16 @@ func (c *ctl) settle(done <-chan struct{}) (finished bool) {
 			return false
 		}
 	}
+}
+
+// held reports whether p is one of the scenario's slow requests.
+func (c *ctl) held(p *pend) bool {
+	for _, h := range c.sc.Hold {
+		if (h.Host == "" || h.Host == p.side) && h.Class == p.class && h.N == p.n {
+			return true
+		}
+	}
+	return false
 }
 
 func (c *ctl) livePending() []*pend {
@@ -392,6 +434,18 @@ func (c *ctl) control(done <-chan struct{}) (stalled bool) {
 			}
 		case mode == "random":
 			needSettle = true
+		case mode == "delay":
+			// everything but the held requests is served in arrival order; a held request only when
+			// nothing else can move any more (per-request latency pushed to the extreme)
+			for _, p := range live {
+				if !c.held(p) {
+					pick = p
+					break
+				}
+			}
+			if pick == nil && len(live) > 0 {
+				needSettle = true
+			}
 		default: // fifo, or a script that ran out / drifted
 			if len(live) > 0 {
 				pick = live[0]
@@ -414,6 +468,16 @@ func (c *ctl) control(done <-chan struct{}) (stalled bool) {
 			if len(live) > 0 {
 				idle = 0
 				switch {
+				case mode == "delay":
+					free := false
+					for _, p := range live {
+						if !c.held(p) {
+							free = true
+						}
+					}
+					if !free {
+						c.releaseLocked(live[0], "")
+					}
 				case mode == "random":
 					c.releaseLocked(live[c.rng.Intn(len(live))], "")
 				case mode == "script" && c.scriptAt < len(script):
@@ -568,6 +632,23 @@ func runScenario(sc *scenario, scratch string) (*vtrace.Trace, error) {
 			faultfree = false
 		}
 	}
+	// only transient, retryable faults, fewer than the retry limit (reghttp absorbs them)
+	transient, nflt := !faultfree && sc.Cancel == nil && sc.Death == nil && sc.CancelCB == nil, 0
+	isTransient := func(k string) bool { return k == "429" || k == "500" || k == "reset" }
+	for _, f := range sc.Faults {
+		nflt++
+		transient = transient && isTransient(f.Kind)
+	}
+	for _, st := range sc.Script {
+		switch st.Op {
+		case "fault":
+			nflt++
+			transient = transient && isTransient(st.Kind)
+		case "cancel", "death":
+			transient = false
+		}
+	}
+	transient = transient && nflt >= 1 && nflt <= 2
 	tr.Header = map[string]any{
 		"shape": sc.Shape, "pair": sc.Pair, "root": w.sh.Root,
 		"samerepo": b2i(w.sameRepo()), "samereg": b2i(w.sameReg()),
